@@ -218,7 +218,7 @@ func c13Query(res *Result, c *Cli, key string, objs []c13Obj, qlat, qlon float64
 }
 
 func checkC13(job *Job, res *Result) {
-	res.Rule = "SEQ: all datasets of <= 2 (thorough 3) objects from a 18-object catalogue (lattice points at poles / antimeridian, duplicates, 4 rectangles, 2 rectangles degenerate on one axis) each built by 5 histories (direct; moved into place; extras inserted and deleted; ids that first held an empty geometry; ids that first held a string / re-created), plus 4 datasets of 130 objects (antimeridian, pole, one shared latitude, one shared longitude); x 49 lattice query points (+ 6 off-lattice near the antimeridian); per query: full order, DISTANCE values, LIMIT k for every k <= 4 (structure datasets: also k nearest among the objects passing a WHERE / MATCH / WHEREIN filter), radius = each reported distance, 4 fixed radii; distinct = distinct (dataset, query point)"
+	res.Rule = "SEQ: all datasets of <= 2 (thorough 3) objects from a 18-object catalogue (lattice points at poles / antimeridian, duplicates, 4 rectangles, 2 rectangles degenerate on one axis) each built by 6 histories (direct; moved into place; extras inserted and deleted; ids that first held an empty geometry; ids that first held a string / re-created; other ids that held geometries overwritten by strings), plus 4 datasets of 130 objects (antimeridian, pole, one shared latitude, one shared longitude); x 49 lattice query points (+ 6 off-lattice near the antimeridian); per query: full order, DISTANCE values, LIMIT k for every k <= 4 (structure datasets: also k nearest among the objects passing a WHERE / MATCH / WHEREIN filter), radius = each reported distance, 4 fixed radii; distinct = distinct (dataset, query point)"
 	res.Assumptions = append(res.Assumptions, "distances on a sphere of radius 6371 km; tolerance 1e-6 relative + 1 m; order inversions count only beyond the tolerance; the distance of an extended object is the distance to its bounding rectangle")
 	cat := c13Catalogue()
 	maxN := 2
@@ -265,7 +265,7 @@ func checkC13(job *Job, res *Result) {
 			for _, i := range sub {
 				objs = append(objs, cat[i])
 			}
-			for hist := 0; hist < 5; hist++ {
+			for hist := 0; hist < 6; hist++ {
 				c.Do("DROP", "nk")
 				switch hist {
 				case 0:
@@ -304,6 +304,17 @@ func checkC13(job *Job, res *Result) {
 					c.Do("DEL", "nk", objs[len(objs)-1].ID)
 					c.Do("SET", "nk", objs[len(objs)-1].ID, "OBJECT", `{"type":"FeatureCollection","features":[]}`)
 					c.Do(objs[len(objs)-1].setArgs("nk")...)
+				case 5: // other ids held geometries and now hold strings (one deleted afterwards): not spatial any more
+					c.Do("SET", "nk", "was1", "POINT", "0", "0")
+					c.Do("SET", "nk", "was2", "POINT", "89.9", "179.9")
+					c.Do("SET", "nk", "was3", "BOUNDS", "-90", "-180", "-80", "180")
+					for _, o := range objs {
+						c.Do(o.setArgs("nk")...)
+					}
+					c.Do("SET", "nk", "was1", "STRING", "now a string")
+					c.Do("SET", "nk", "was2", "STRING", "now a string")
+					c.Do("SET", "nk", "was3", "STRING", "now a string")
+					c.Do("DEL", "nk", "was2")
 				}
 				for qi, p := range qps {
 					if hist > 0 && qi%5 != 0 {
